@@ -62,7 +62,7 @@ def run(ctx):
         ctx.write_evidence()
         return
     oc = rc["obs"]
-    expect = {"kf1rot7": "F1", "kf2glob": "F2", "kf4xpkg": "F4"}
+    expect = {"kf1rot7": "F1", "kf2glob": "F2", "kf4xpkg": "F4", "kf30nest6": "F30"}
     for c in corpus:
         o = oc[c.name]
         silent = not o["reports"] and not o["other"]
@@ -76,8 +76,8 @@ def run(ctx):
         else:
             if o["panics"] and silent:
                 ctx.violation("corpus-" + c.name, "C01 fails on a control program (a variant of a known finding that used to be reported)\n" + PF.describe(c, o))
-    ctx.obligation("controls of the corpus (3-variable rotation, same-package contracted callee) are reported", not any(
-        oc[n]["panics"] and not oc[n]["reports"] for n in ("kf1rot3", "kf4same")))
+    ctx.obligation("controls of the corpus (3-variable rotation, 4 nested loops, same-package contracted callee) are reported", not any(
+        oc[n]["panics"] and not oc[n]["reports"] for n in ("kf1rot3", "kf4same", "kf30nest4")))
 
     rng = random.Random(ctx.seed * 104729 + 1)
     n = 400 if ctx.tier == "quick" else 6000
